@@ -32,7 +32,7 @@ def setup():
     return leaves
 
 
-ARITY = {"atan2": 2, "mul2": 2, "mul3": 3, "add2": 2, "add3": 3, "pow": 2, "abs": 1, "min2": 2, "max2": 2, "exp": 1,
+ARITY = {"gapp": 1, "atan2": 2, "mul2": 2, "mul3": 3, "add2": 2, "add3": 3, "pow": 2, "abs": 1, "min2": 2, "max2": 2, "exp": 1,
          "neg": 1, "d1": 2, "d2": 2}
 
 
